@@ -346,6 +346,17 @@ impl PlainSecretParams {
                     !matches!(s2k, StringToKey::Argon2 { .. }),
                     "Argon2 not allowed with Cfb"
                 );
+                // Do not create what `EncryptedSecretParams::unlock` refuses to open:
+                // version 6 keys may only use iterated+salted or salted S2K with CFB.
+                ensure!(
+                    version != KeyVersion::V6
+                        || matches!(
+                            s2k,
+                            StringToKey::IteratedAndSalted { .. } | StringToKey::Salted { .. }
+                        ),
+                    "Version 6 keys may not use the weak S2k type {:?}",
+                    s2k
+                );
 
                 let key = s2k.derive_key(passphrase, sym_alg.key_size())?;
                 let enc_data = match version {
@@ -373,6 +384,17 @@ impl PlainSecretParams {
                 s2k,
                 nonce,
             } => {
+                // Do not create what `EncryptedSecretParams::unlock` refuses to open:
+                // S2K usage AEAD is only unlocked with Argon2 or iterated+salted S2K.
+                ensure!(
+                    matches!(
+                        s2k,
+                        StringToKey::Argon2 { .. } | StringToKey::IteratedAndSalted { .. }
+                    ),
+                    "S2K usage AEAD is not allowed with S2K type {:?}",
+                    s2k.id()
+                );
+
                 let key = s2k.derive_key(passphrase, sym_alg.key_size())?;
 
                 let enc_data = match version {
